@@ -298,6 +298,11 @@ def run_dirs(sh, ctx):
 		'gs-and-h5': [('a.gdb', gdb), ('s.gs', gs), ('t.h5', gs)],
 		'two-h5': [('a.db', gdb), ('s.h5', gs), ('t.h5', gs)],
 		'wrong-extensions': [('a.sqlite', gdb), ('s.hdf5', gs)],
+		# a second genome / signature file whose name begins with a dot is still a second file
+		'dot-named-second-gdb': [('a.gdb', gdb), ('.old.gdb', gdb), ('s.gs', gs)],
+		'dot-named-second-db': [('a.gdb', gdb), ('._a.db', gdb), ('s.gs', gs)],
+		'dot-named-second-gs': [('a.gdb', gdb), ('s.gs', gs), ('.partial.gs', gs)],
+		'dot-named-second-h5': [('a.db', gdb), ('s.h5', gs), ('.s.h5', gs)],
 	}
 	for cls, files in bad.items():
 		d = mk(files)
@@ -309,8 +314,35 @@ def run_dirs(sh, ctx):
 		'gdb+h5+unrelated': [('a.gdb', gdb), ('s.h5', gs), ('README.md', gs), ('notes.txt', gdb), ('x.gdb.bak', gdb), ('y.gs.old', gs)],
 		'db+gs+dotfile': [('a.db', gdb), ('s.gs', gs), ('.hidden', gs)],
 	}
-	for cls, files in good.items():
-		d = mk(files, subdirs=('subdir', 'more.d'))
+	good['dot-named-files-only'] = [('.a.gdb', gdb), ('.s.gs', gs)]
+	# directory names containing characters that mean something to glob / fnmatch / the shell; siblings whose names such a pattern
+	# would match hold ANOTHER database (w2), so that loading the sibling instead is visible
+	w2 = distinct_world(rng, ng=3)
+	special = {}
+	for nm, sibs in (('db[12]', ['db1', 'db2']), ('rel*', ['release']), ('v?', ['v1']), ('a[b', []), ('with space and {braces}', []), ('~tilde', []), ('%40d', [])):
+		root = ctx.workdir / f'sp{len(special)}'
+		root.mkdir()
+		for sname in sibs:
+			w2.write_db(root / sname)
+		d = root / nm
+		d.mkdir()
+		shutil.copy(gdb, d / 'a.gdb'); shutil.copy(gs, d / 's.gs')
+		special[f'dirname:{nm}'] = d
+		# and the same name EMPTY next to valid siblings: nothing to load here
+		root2 = ctx.workdir / f'spe{len(special)}'
+		root2.mkdir()
+		for sname in sibs:
+			w2.write_db(root2 / sname)
+		(root2 / nm).mkdir()
+		if sibs:
+			expect_load_failure(ctx, root2 / nm, 'dir:empty-with-pattern-like-name', dict(dirname=nm, siblings=sibs))
+	for cls, files in list(good.items()) + [(k_, None) for k_ in special]:
+		if files is None:
+			d = special[cls]
+			(d / 'subdir').mkdir()
+			files = [('a.gdb', gdb), ('s.gs', gs)]
+		else:
+			d = mk(files, subdirs=('subdir', 'more.d'))
 		# files inside sub-directories must be ignored
 		shutil.copy(gdb, d / 'subdir' / 'inner.gdb'); shutil.copy(gs, d / 'subdir' / 'inner.gs')
 		ctx.case(('dir-good', cls), nontrivial=True)
@@ -318,6 +350,11 @@ def run_dirs(sh, ctx):
 		try:
 			db = ReferenceDatabase.load_from_dir(d)
 		except Exception as e:
+			if cls.startswith('dirname:'):
+				# the statement does not promise that every directory NAME works (on the unchanged tree a '?' in the path ends the SQLite
+				# URL); what it excludes is a database that is not this directory's - recorded, not judged
+				ctx.count(f'directory_name_refused:{cls[8:]}:{type(e).__name__}')
+				continue
 			ctx.violation('valid-database-refused', f'directory {cls} refused: {type(e).__name__}: {e}', dict(files=[f[0] for f in files]))
 			continue
 		try:
